@@ -3,6 +3,7 @@ package c14
 import (
 	"bytes"
 	"fmt"
+	"math"
 	"sort"
 	"strings"
 	"sync"
@@ -517,6 +518,54 @@ func (w *world) listLaws(at int, fm *fontscan.FontMap, vc fontscan.VerifCandidat
 					return fail("fallback-missing", "face %d (family %q) matches a queried family or the script and has the retained aspect %+v but is not in withFallback = %v", i, db[i].Family, a, vc.WithFallback)
 				}
 			}
+		}
+	}
+	// order of withFallback (documented on scoredFootprints.Less): strong substitutes
+	// before weak ones; among strong ones only the score; among weak ones the faces
+	// covering the current script first, then the score. Scores come from the
+	// library's own substitution table (hook), the order is re-derived here.
+	{
+		sc := fm.VerifSubstitutionScores()
+		type ent struct {
+			strong    bool
+			score     int
+			hasScript bool
+			family    bool // matched by family (otherwise by script only: after every family match)
+		}
+		get := func(i int) ent {
+			e := ent{hasScript: w.script != 0 && db[i].Scripts.VerifContains(w.script)}
+			if v, ok := sc[db[i].Family]; ok {
+				e.family, e.strong, e.score = true, v.Strong, v.Score
+			} else {
+				e.score = math.MaxInt // matched by script only: weak, worse than any family match
+			}
+			return e
+		}
+		for k := 0; k+1 < len(vc.WithFallback); k++ {
+			ia, ib := vc.WithFallback[k], vc.WithFallback[k+1]
+			a, b := get(ia), get(ib)
+			bad := ""
+			switch {
+			case b.strong && !a.strong:
+				bad = "a weak substitute comes before a strong one"
+			case a.strong && b.strong:
+				if a.score > b.score {
+					bad = "among strong substitutes the worse score comes first"
+				}
+			case !a.strong && !b.strong:
+				if b.hasScript && !a.hasScript {
+					bad = "among weak substitutes a face without the script comes before one with it"
+				} else if a.hasScript == b.hasScript && a.score > b.score {
+					bad = "among weak substitutes with the same script support the worse score comes first"
+				}
+			}
+			if bad != "" {
+				return fail("fallback-order", "%s: entries %d (family %q, %+v) and %d (family %q, %+v) of withFallback = %v under script %s",
+					bad, ia, db[ia].Family, a, ib, db[ib].Family, b, vc.WithFallback, scriptName(w.script))
+			}
+		}
+		if len(vc.WithFallback) > 1 {
+			w.st.c("list law: withFallback order re-derived from the substitution scores")
 		}
 	}
 	// compositionality of the exact list: the entry of each queried family does
